@@ -163,6 +163,25 @@ func runC20(c *Ctx) {
 			}
 		}
 	}
+	// the version gate may live in a helper of Install: `gate(…, newVersion, existingVersion) error`
+	var gateCall *ssa.Call
+	if cmpC == nil {
+		for _, ci := range allCalls(INST) {
+			hc, ok := ci.(*ssa.Call)
+			if !ok {
+				continue
+			}
+			H := staticCallee(hc)
+			if H == nil || !w.IsProductFn(H) || !isErrorType(hc.Type()) {
+				continue
+			}
+			for _, ci2 := range allCalls(H) {
+				if cc, ok := ci2.(*ssa.Call); ok && calleeName(cc) == "ngo/internal/semver.ComparePluginVersion" {
+					cmpC, gateCall = cc, hc
+				}
+			}
+		}
+	}
 	if getC == nil || cmpC == nil || newMD == nil || oldMD == nil {
 		c.Unk("anchor/install-shape", "anchor: Get, GetMetadata of new and existing plugin, ComparePluginVersion in Install", w.FnPos(INST), fmt.Sprintf("get=%v cmp=%v newMD=%v oldMD=%v", getC != nil, cmpC != nil, newMD != nil, oldMD != nil))
 		return
@@ -218,16 +237,21 @@ func runC20(c *Ctx) {
 		ok, why := certifyFileNameValidator(w, v)
 		c.Check(ok, "gates/name-validator", "the name validator accepts only single path components (no separator, NUL, empty, dot names)", w.FnPos(v), why)
 	}
-	c20Table(c, INST, effects, optsP, boolField, getC, cmpC, oldMD.(*ssa.Call))
+	if gateCall != nil {
+		if !c20GateHelper(c, gateCall, cmpC) {
+			return
+		}
+	}
+	c20Table(c, INST, effects, optsP, boolField, getC, cmpC, oldMD.(*ssa.Call), gateCall)
 	c20Order(c, INST, effects, newP, newMD.(*ssa.Call), optsP)
-	c20Semver(c, cmpC, newMD.(*ssa.Call), oldMD.(*ssa.Call))
+	c20Semver(c, cmpC, newMD.(*ssa.Call), oldMD.(*ssa.Call), gateCall)
 	c20Discovery(c, INST)
 	c20Names(c)
 	c.MinCount("", 25, "installation obligations")
 }
 
 // (c) the decision table
-func c20Table(c *Ctx, INST *ssa.Function, effects []c20Effect, optsP, boolField string, getC, cmpC, oldMD *ssa.Call) {
+func c20Table(c *Ctx, INST *ssa.Function, effects []c20Effect, optsP, boolField string, getC, cmpC, oldMD, gateCall *ssa.Call) {
 	w := c.W
 	var parseC *ssa.Call
 	for _, ci := range allCalls(INST) {
@@ -279,6 +303,9 @@ func c20Table(c *Ctx, INST *ssa.Function, effects []c20Effect, optsP, boolField 
 			return nilIf(cur.get == "nil"), true
 		case errOf(v, oldMD):
 			return nilIf(!cur.md), true
+		case gateCall != nil && v == ssa.Value(gateCall):
+			// the helper answers nil exactly when the comparison succeeded with new > existing (checked by c20GateHelper)
+			return nilIf(!cur.cmpErr && cur.comp == 1), true
 		case errOf(v, cmpC):
 			return nilIf(!cur.cmpErr), true
 		}
@@ -449,9 +476,21 @@ var c20SemverInvalid = []string{"", "1", "1.2", "1.2.3-0123", "1.2.3-0123.0123",
 	"1.2.3-.a", "1.2.3-01", "1.2.x", "1..3", "1.2.3-é", "1.2.3+a_b"}
 
 // (e) version comparison
-func c20Semver(c *Ctx, cmpC, newMD, oldMD *ssa.Call) {
+func c20Semver(c *Ctx, cmpC, newMD, oldMD, gateCall *ssa.Call) {
 	w := c.W
 	a0, a1 := desc(cmpC.Call.Args[0]), desc(cmpC.Call.Args[1])
+	if gateCall != nil {
+		// arguments of the comparison in the helper's frame, rewritten into Install's frame
+		H := staticCallee(gateCall)
+		var names, descs []string
+		for i, p := range H.Params {
+			if i < len(gateCall.Call.Args) {
+				names = append(names, p.Name())
+				descs = append(descs, desc(gateCall.Call.Args[i]))
+			}
+		}
+		a0, a1 = substParams(a0, names, descs), substParams(a1, names, descs)
+	}
 	okArgs := strings.HasPrefix(a0, desc(newMD)+"#0.") && strings.HasPrefix(a1, desc(oldMD)+"#0.") && strings.TrimPrefix(a0, desc(newMD)+"#0") == strings.TrimPrefix(a1, desc(oldMD)+"#0")
 	if !okArgs {
 		// the existing metadata may be read through the variable holding it
@@ -900,9 +939,15 @@ func c20Names(c *Ctx) {
 	// binName by role: the string -> string function Get joins under the plugin name
 	var B *ssa.Function
 	if get := w.Method("plugin", "CLIManager", "Get"); get != nil {
-		for _, ci := range allCalls(get) {
-			if g := staticCallee(ci); g != nil && w.IsProductFn(g) && g.Signature.Params().Len() == 1 && g.Signature.Results().Len() == 1 && g.Signature.Results().At(0).Type().String() == "string" {
-				B = g
+		for _, f := range w.moduleCallees(get) {
+			for _, ci := range allCalls(f) {
+				g := staticCallee(ci)
+				if g == nil || !w.IsProductFn(g) || g.Signature.Recv() != nil || g.Signature.Params().Len() != 1 || g.Signature.Results().Len() != 1 || g.Signature.Results().At(0).Type().String() != "string" {
+					continue
+				}
+				if b, ok := g.Signature.Params().At(0).Type().Underlying().(*types.Basic); ok && b.Kind() == types.String && fnPkg(g).Path() == modPath+"/plugin" {
+					B = g
+				}
 			}
 		}
 	}
@@ -975,4 +1020,55 @@ func c20NameParser(w *World) *ssa.Function {
 		}
 	}
 	return nil
+}
+
+// c20GateHelper: the helper that holds the version comparison returns nil exactly when the comparison returned no
+// error and +1 (decided by abstract interpretation of the helper over error x {-1, 0, +1}).
+func c20GateHelper(c *Ctx, gateCall, cmpC *ssa.Call) bool {
+	w := c.W
+	H := staticCallee(gateCall)
+	c.SeenFn(H.String())
+	hi := w.Info(H)
+	var bad []string
+	n := 0
+	for _, ce := range []bool{false, true} {
+		for _, comp := range []int64{-1, 0, 1} {
+			hook := func(in ssa.Instruction, env map[ssa.Value]AVal) (AVal, bool) {
+				v, ok := in.(ssa.Value)
+				if !ok {
+					return AVal{}, false
+				}
+				if ex, ok := v.(*ssa.Extract); ok && ex.Tuple == ssa.Value(cmpC) {
+					if ex.Index == 0 {
+						return AVal{Kind: aInt, Int: comp}, true
+					}
+					if ce {
+						return AVal{Kind: aNonNil}, true
+					}
+					return AVal{Kind: aNil}, true
+				}
+				return AVal{}, false
+			}
+			ip := &Interp{Fn: H, Hook: hook, IntTypes: map[string]bool{"*": true}}
+			for _, o := range ip.Run(H.Blocks[0], nil, map[ssa.Value]AVal{}, nil, nil) {
+				n++
+				if o.Ret == nil {
+					continue
+				}
+				e := o.Ret.Results[len(o.Ret.Results)-1]
+				isNil := isNilConst(e)
+				nonNil := hi.nonNil(e, o.Ret.Block())
+				wantNil := !ce && comp == 1
+				if wantNil && !isNil {
+					bad = append(bad, fmt.Sprintf("err=%v comp=%d: a refusal is possible although the new version is higher", ce, comp))
+				}
+				if !wantNil && !nonNil {
+					bad = append(bad, fmt.Sprintf("err=%v comp=%d: the helper may answer nil", ce, comp))
+				}
+			}
+		}
+	}
+	c.Evals += n
+	c.Check(len(bad) == 0 && n > 0, "table/version-gate-helper", "the helper holding the version comparison answers nil exactly when the comparison returned no error and new > existing", w.FnPos(H), strings.Join(uniq(bad), "; "))
+	return len(bad) == 0 && n > 0
 }
